@@ -5,10 +5,10 @@
 #
 # Oracle = an ideal host (accepts a data packet iff its DATA0/DATA1 toggle is the expected one, ACKs every data packet it
 # sees) plus the bookkeeping the statement needs: what was pushed (with `last` markers), what the device has seen ACKed.
-from rtlmc.model import Violation
+from rtlmc.model import Violation, MachineryError
 from rtlmc.explore import Spec
 from rtlmc import usbref as U
-from rtlmc.env.usb2_host import PruneCollision
+from rtlmc.env.usb2_host import PruneCollision, J, K, SE0
 from harness._usb2dev import build_device
 from harness._usb2in import DrivenHost, Producer
 
@@ -24,9 +24,10 @@ def tags_for(n):
     return tuple((0x21 + 0x1D * i) & 0xFF for i in range(n))
 
 
-def _cfg(mps, L, maxlast=1, gap=1, pace=1, ready=1, bg_last=(), others=(), flush=1, single=1, delays=(1,), junk=None):
+def _cfg(mps, L, maxlast=1, gap=1, pace=1, ready=1, bg_last=(), others=(), flush=1, single=1, delays=(1,), junk=None, flavour=None, align=0):
     return dict(mps=mps, L=L, maxlast=maxlast, gap=gap, pace=pace, ready=ready, bg_last=list(bg_last), others=list(others),
-                flush=flush, single=single, delays=list(delays), junk=junk)
+                flush=flush, single=single, delays=list(delays), junk=junk, flavour=flavour,
+                align_goals=["packet-completed-one-cycle-before-response-slot", "same-after-a-short-packet"] if align else [])
 
 
 def configs(tier):
@@ -45,7 +46,12 @@ def configs(tier):
          _cfg(2, 4, maxlast=0, single=0, bg_last=[1], flush=0, delays=sweep, junk=J),
          _cfg(2, 5, maxlast=0, single=0, bg_last=[2], delays=sweep),
          _cfg(3, 6, maxlast=0, single=0, gap=2, ready=2, bg_last=[2], flush=0, delays=range(1, 49), junk=J),
-         _cfg(2, 5, maxlast=1, bg_last=[4], junk=J)]
+         _cfg(2, 5, maxlast=1, bg_last=[4], junk=J),
+         # producer completing a packet in every cycle relative to the token's response slot, after short and full packets,
+         # in the three timing flavours of USBDevice (response slot 2 / 10 / 1 cycles after the token)
+         _cfg(3, 5, flush=0, delays=sweep, align=1),
+         _cfg(3, 4, flush=0, gap=12, delays=range(1, 25), flavour="clk60", align=1),
+         _cfg(3, 4, flush=0, gap=2, delays=range(1, 25), flavour="hs", align=1)]
     if tier == "quick":
         return q
     t = [_cfg(2, 6, maxlast=2, delays=[1, 6, 11, 16]),
@@ -57,7 +63,9 @@ def configs(tier):
          _cfg(4, 9, maxlast=1, ready=2, flush=0, delays=range(1, 41, 2), junk=J),
          _cfg(8, 18, bg_last=[15], flush=0),
          _cfg(8, 10, others=["fin"], flush=0, delays=[1, 11], junk=J),
-         _cfg(64, 65, single=0, maxlast=0, bg_last=[63, 64], flush=0, delays=[1, 30, 60], junk=J)]
+         _cfg(64, 65, single=0, maxlast=0, bg_last=[63, 64], flush=0, delays=[1, 30, 60], junk=J),
+         _cfg(4, 6, flush=0, gap=12, delays=range(1, 49), flavour="clk60", align=1),
+         _cfg(4, 5, flush=0, gap=2, delays=range(1, 25), flavour="hs", align=1, junk=J)]
     return q + t
 
 
@@ -74,6 +82,12 @@ class BulkInSpec(Spec):
         self.others = list(cfg["others"])
         self.use_flush, self.single, self.delays = cfg["flush"], cfg["single"], cfg["delays"]
         self.junk = tuple(cfg["junk"]) if cfg.get("junk") else None
+        self.flavour = cfg.get("flavour")
+        if self.flavour == "hs":
+            # at high speed the reset sequencer's line_state_time counter runs freely (nothing clears it in HS_NON_RESET), so no two
+            # moments of an execution share a DUT state: exploration is a depth-bounded tree; one-shot pushes are allowed anywhere
+            self.n_validate = 1      # every replay in amaranth.sim first runs the 121k-cycle chirp handshake
+            self.max_depth = 6 if tier == "quick" else 7
         self.host = DrivenHost(gap=cfg["gap"], pace=cfg["pace"], ready_period=cfg["ready"], extra=dict(connect=1))
 
     def build(self):
@@ -82,8 +96,35 @@ class BulkInSpec(Spec):
         design, h = build_device(control="standard", ep0_mps=8, endpoints=[mk], probe=False)
         ep = h["endpoints"][0]
         design.inputs.update(s_valid=ep.stream.valid, s_payload=ep.stream.payload, s_last=ep.stream.last, flush=ep.flush)
-        design.observes.update(s_ready=ep.stream.ready)
+        design.observes.update(s_ready=ep.stream.ready, rfr=ep.interface.tokenizer.ready_for_response)
+        if self.flavour in ("clk60", "hs"):
+            # the configuration USBDevice gives itself behind a ULPI PHY: 60 MHz usb domain, inter-packet delays counted in
+            # 60 MHz cycles (response slot 10 cycles after a token at full speed, 1 cycle at high speed); UTMI wire driven directly
+            dev = h["dev"]
+            dev.data_clock, dev.always_fs = 60e6, False
+            if self.flavour == "clk60":
+                design.inputs.update(full_speed_only=dev.full_speed_only)
+                design.defaults.update(full_speed_only=1)
         return design
+
+    def prologue(self, cur):
+        """hs flavour: bus reset + high-speed chirp handshake, so that the device answers with high-speed timing"""
+        if self.flavour != "hs": return None
+        def hold(n, line):
+            while n > 0:
+                k, _, last = cur.hold(n, line_state=line, connect=1)
+                n -= k
+            return last
+        hold(310, SE0)                          # > 5 us of SE0: bus reset, the device starts its chirp
+        hold(120010, K)                         # the device chirps K for 2 ms
+        hold(10, SE0)
+        for _ in range(3):                      # host chirp K-J-K-J-K-J, each > 2.5 us
+            hold(160, K); last = hold(160, J)
+        if last.speed != 0:
+            raise MachineryError("high-speed handshake did not leave the device at high speed")
+        self.host.driver = None
+        for _ in range(6): self.host.tick(cur)
+        return None
 
     def assumptions(self):
         return self.host.assumptions() + [
@@ -93,28 +134,30 @@ class BulkInSpec(Spec):
             "traffic to another device address is seen as a hub forwards it downstream: the token and the host's handshake, not the other device's data",
             "short packets without `last` are tolerated once flush has been asserted on the path; otherwise every short packet must end a transfer",
             "between transactions the bus is either idle for the minimum gap or for a long time (> 641 cycles, all inter-packet timers saturated); one-shot pushes happen during long idle periods, pushes concurrent with bus traffic through the valid level (rising at the configured cycle offsets)",
-            "idle periods are run with line_state=K so that the suspend timer does not distinguish states"]
+            "idle periods are run with line_state=K so that the suspend timer does not distinguish states",
+            "flavour clk60: USBDevice as behind a ULPI PHY (60 MHz, full_speed_only=1), host leaves >= 12 cycles between packets; flavour hs: the same after a complete high-speed chirp handshake (run once before the exploration), line state kept non-SE0; default: the 12 MHz full-speed configuration USBDevice chooses for a plain UTMI bus",
+            "the transmitter behind the endpoint is the real USBDataPacketGenerator, which accepts the first payload byte no earlier than two cycles after the packet stream becomes valid (a stand-alone USBInTransferManager with packet_stream.ready tied high is outside this check)"]
 
-    # env = (pos, lasts, nl, bg, fl, flushed, q, hacc, hexp, unacked, dacc, dzlp, starve)
+    # env = (pos, lasts, nl, bg, fl, flushed, q, hacc, hexp, unacked, dacc, dzlp, starve, plen)
     #  pos: bytes pushed; lasts: positions pushed with last; nl: number of last markers spent by one-shot pushes;
     #  bg: producer valid level (0 low, 1 high, k>1: rises after k-1 more cycles); fl: flush level; flushed: flush was high at
     #  some time on this path; q: 1 = the bus has been idle long enough for the inter-packet timers to have saturated, 2 = the last bus event was
     #  unrelated traffic (two of those are always separated by a long idle period or a transaction on this endpoint), 0 otherwise;
     #  hacc/hexp: ideal host: bytes accepted, expected toggle;  unacked: (toggle, payload) sent by the device and not (seen) ACKed;
     #  dacc: bytes in packets whose ACK reached the device; dzlp: a zero-length packet is owed (a max-size packet ended a transfer);
-    #  starve: consecutive NAKed polls while a packet was complete
+    #  starve: consecutive NAKed polls while a packet was complete;  plen: length of the data packet the device sent last
     def env0(self):
-        return (0, (), 0, 0, 0, 0, 0, 0, 0, None, 0, 0, 0)
+        return (0, (), 0, 0, 0, 0, 0, 0, 0, None, 0, 0, 0, 0)
 
     def canon(self, env):
-        pos, lasts, nl, bg, fl, flushed, q, hacc, hexp, unacked, dacc, dzlp, starve = env
-        return (pos, tuple(l for l in lasts if l >= dacc), nl, bg if pos < self.L else 0, fl, flushed, q, hacc, hexp, unacked, dacc, dzlp, starve)
+        pos, lasts, nl, bg, fl, flushed, q, hacc, hexp, unacked, dacc, dzlp, starve, plen = env
+        return (pos, tuple(l for l in lasts if l >= dacc), nl, bg if pos < self.L else 0, fl, flushed, q, hacc, hexp, unacked, dacc, dzlp, starve, plen)
 
     def actions(self, env):
         pos, lasts, nl, bg, fl, flushed, q = env[:7]
         acts = []
         if pos < self.L:
-            if self.single and q == 1:
+            if self.single and (q == 1 or self.flavour == "hs"):
                 acts.append(("push", 0))
                 if nl < self.cfg["maxlast"]: acts.append(("push", 1))
             if bg == 0: acts += [("bg", k) for k in self.delays]
@@ -122,7 +165,7 @@ class BulkInSpec(Spec):
         elif bg:
             acts.append(("bg", 0))
         if self.use_flush: acts.append(("fl",))
-        if q != 1 or (bg and pos < self.L): acts.append(("quiet",))
+        if (q != 1 or (bg and pos < self.L)) and self.flavour != "hs": acts.append(("quiet",))
         acts += [("in", "ack"), ("in", "acklost"), ("in", "datalost")]
         if q != 2: acts += [("x", k) for k in self.others]
         return acts
@@ -134,12 +177,13 @@ class BulkInSpec(Spec):
         if self.mps > 1 and (self.single and self.cfg["maxlast"] or any((p + 1) % self.mps for p in lastpos)): g.append("short-packet-ends-transfer")
         if self.use_flush and self.mps > 1: g.append("flush-packet")
         if "fin" in self.others: g.append("foreign-ack-while-unacked")
+        g += self.cfg.get("align_goals", [])
         return g
 
     def apply(self, cur, env, a):
-        pos, lasts, nl, bg, fl, flushed, q, hacc, hexp, unacked, dacc, dzlp, starve = env
-        if a[0] == "bg": return (pos, lasts, nl, a[1], fl, flushed, q, hacc, hexp, unacked, dacc, dzlp, 0)
-        if a[0] == "fl": return (pos, lasts, nl, bg, fl ^ 1, flushed, q, hacc, hexp, unacked, dacc, dzlp, 0)
+        pos, lasts, nl, bg, fl, flushed, q, hacc, hexp, unacked, dacc, dzlp, starve, plen = env
+        if a[0] == "bg": return (pos, lasts, nl, a[1], fl, flushed, q, hacc, hexp, unacked, dacc, dzlp, 0, plen)
+        if a[0] == "fl": return (pos, lasts, nl, bg, fl ^ 1, flushed, q, hacc, hexp, unacked, dacc, dzlp, 0, plen)
         host = self.host
         prod = Producer(self.tags, pos, lasts, bg, self.last_at, fl, junk=self.junk)
         host.driver = prod
@@ -176,7 +220,7 @@ class BulkInSpec(Spec):
             return None
         finally:
             host.driver = None
-        return (prod.pos, prod.lasts, nl, prod.level, fl, flushed, q, hacc, hexp, unacked, dacc, dzlp, 0)
+        return (prod.pos, prod.lasts, nl, prod.level, fl, flushed, q, hacc, hexp, unacked, dacc, dzlp, 0, plen)
 
     def _other(self, cur, kind):
         host = self.host
@@ -198,7 +242,7 @@ class BulkInSpec(Spec):
 
     def _in(self, cur, env, outcome, prod, flushed):
         """one IN transaction on endpoint 1.  returns the host/device part of the new env."""
-        pos, lasts, nl, bg, fl, _f, _q, hacc, hexp, unacked, dacc, dzlp, starve = env
+        pos, lasts, nl, bg, fl, _f, _q, hacc, hexp, unacked, dacc, dzlp, starve, plen = env
         mps, tags, host = self.mps, self.tags, self.host
         empty = unacked is None and pos == dacc and not dzlp
         owed = unacked is not None or dzlp or pos - dacc >= mps or any(l >= dacc for l in lasts)
@@ -218,7 +262,7 @@ class BulkInSpec(Spec):
                     raise Violation("liveness:complete-packet-never-sent", dict(pushed=pos, acked=dacc, unacked=unacked, zlp_owed=dzlp))
             else:
                 starve = 0
-            return (hacc, hexp, unacked, dacc, dzlp, starve)
+            return (hacc, hexp, unacked, dacc, dzlp, starve, plen)
         _, pid, payload = kind
         if pid not in (U.DATA0, U.DATA1):
             raise Violation("packet:pid-not-data0-or-data1", dict(pid=U.PIDNAME[pid]))
@@ -251,10 +295,16 @@ class BulkInSpec(Spec):
                     raise Violation("boundary:short-packet-without-last-or-flush", dict(packet=payload, start=dacc, lasts=prod.lasts))
             if n == mps: self.cover["full-packet"] += 1
             if n == 0: self.cover["zlp"] += 1
+            # alignment of interest: the byte that completes this packet was accepted in the cycle just before the token's
+            # response slot (ready_for_response), i.e. the transfer manager answers in the first cycle it has a packet
+            tc = prod.acc_t.get(dacc + n - 1) if n else None
+            if tc is not None and (tc + 1) in prod.rfr_t:
+                self.cover["packet-completed-one-cycle-before-response-slot"] += 1
+                if 0 < plen < mps: self.cover["same-after-a-short-packet"] += 1
         # ---- the ideal host
         if outcome == "datalost":
             self.cover["data-lost"] += 1
-            return (hacc, hexp, sent, dacc, dzlp, 0)
+            return (hacc, hexp, sent, dacc, dzlp, 0, n)
         if tog == hexp:
             if payload != tags[hacc:hacc + n]:
                 raise Violation("stream:host-accepts-wrong-data", dict(packet=payload, expected=tags[hacc:hacc + n], accepted=hacc))
@@ -265,12 +315,12 @@ class BulkInSpec(Spec):
             self.cover["duplicate-discarded-by-host"] += 1
         if outcome == "acklost":
             self.cover["ack-lost"] += 1
-            return (hacc, hexp, sent, dacc, dzlp, 0)
+            return (hacc, hexp, sent, dacc, dzlp, 0, n)
         host.send(cur, U.handshake(U.ACK), False)
         dacc += n
         dzlp = 1 if (n == mps and (dacc - 1) in prod.lasts) else 0
         assert hacc == dacc, "reference model: after a delivered ACK host and device agree"
-        return (hacc, hexp, None, dacc, dzlp, 0)
+        return (hacc, hexp, None, dacc, dzlp, 0, n)
 
 
 def make(cfg, tier):
